@@ -53,6 +53,17 @@ func init() {
 	EquivSpellings["r5"] = []string{base + pad, "HTTP://A.TEST:80/k216/" + pad, "http://a.test/k216/./" + pad}
 }
 
+// ExactLenResource registers (once) a resource whose canonical URI is exactly n bytes long.
+func ExactLenResource(n int) string {
+	name := "len" + itoa(int64(n))
+	if _, ok := EquivSpellings[name]; !ok {
+		base := "http://a.test/k/"
+		pad := strings.Repeat("y", n-len(base))
+		EquivSpellings[name] = []string{base + pad, "HTTP://A.TEST:80/k/" + pad, "http://a.test/k/./" + pad}
+	}
+	return name
+}
+
 func Spelling(t *rapid.T, label, res string, equivPct int) string {
 	sp := EquivSpellings[res]
 	if Pct(t, label+"-eq", equivPct) {
